@@ -36,7 +36,7 @@ MIN_NONTRIVIAL = {"quick": 300, "thorough": 6000}
 REACH_FLOORS = {"examples_expected": 1000, "cases_drawn": 800, "engine_runs": 8, "operations_without_examples": 20}
 SHARD_TIMEOUT = {"quick": 900, "thorough": 5400}
 
-PLACEMENTS = ["param_example", "param_examples", "param_schema_example", "param_schema_examples", "media_example", "media_examples", "media_examples_ref", "body_schema_example", "property_example", "branch_example"]
+PLACEMENTS = ["param_example", "param_examples", "param_schema_example", "param_schema_examples", "media_example", "media_examples", "media_examples_ref", "body_schema_example", "property_example", "branch_example", "falsy_property_example", "allof_property_example"]
 
 
 def plan(tier, seed):
@@ -118,6 +118,23 @@ def gen_document(rng, version):
             v = marker.integer()
             body_schema["properties"]["count"]["example"] = v
             expected.append({"op": label, "where": ("body", ("prop", "count")), "value": v, "placement": "property_example"})
+    if "falsy_property_example" in chosen:
+        # examples that are falsy in Python are examples all the same; the property names are unique to this placement
+        for name, schema in rng.sample([("flag", {"type": "boolean", "example": False}), ("zero", {"type": "integer", "example": 0}), ("blank", {"type": "string", "example": ""}), ("none", {"type": "array", "items": {"type": "integer"}, "example": []})], rng.randint(1, 3)):
+            body_schema["properties"][name] = schema
+            expected.append({"op": label, "where": ("body", ("prop", name)), "value": schema["example"], "placement": "falsy_property_example"})
+    if "allof_property_example" in chosen:
+        # a property described by allOf: every branch has its own `required`; those without an example are to be filled in
+        v = marker.string()
+        body_schema["properties"]["owner"] = {
+            "allOf": [
+                {"type": "object", "properties": {"login": {"type": "string", "minLength": 3}, "mail": {"type": "string"}}, "required": ["login"]},
+                {"type": "object", "properties": {"role": {"type": "string", "example": v}, "level": {"type": "integer", "minimum": 1}}, "required": ["role", "level"]},
+            ]
+        }
+        if rng.random() < 0.5:
+            body_schema["required"] = ["name", "owner"]
+        expected.append({"op": label, "where": ("body", ("sub", "owner", "role")), "value": v, "placement": "allof_property_example"})
     if "branch_example" in chosen:
         v = marker.string()
         body_schema["properties"]["kind"]["anyOf"][0]["example"] = v
@@ -177,11 +194,13 @@ def occurs(expected_item, case_view):
     body = case_view.get("body")
     if where[1] is None:
         return body == value
-    kind, name = where[1]
+    kind, name = where[1][0], where[1][1]
     if not isinstance(body, dict):
         return False
+    if kind == "sub":
+        return isinstance(body.get(name), dict) and body[name].get(where[1][2]) == value
     if kind == "prop":
-        return body.get(name) == value
+        return name in body and body[name] == value and type(body[name]) is type(value)
     return isinstance(body.get(name), list) and value in body[name]
 
 
